@@ -137,6 +137,26 @@ func c05Run(c *ev.Ctx) {
 		model[d.Op.Path] = &c05Obj{Kind: "dataset", DS: &dd, Attrs: attrModel{}, Dims: d.Op.Dims}
 		dss = append(dss, d.Op.Path)
 	}
+	// one file in eight: a group whose 256-byte name heap is filled to refusal with names of
+	// three bytes per character (also the root group's, in a third of those)
+	if r.Chance(1, 8) && !forceMinimal {
+		parent := "/fill"
+		if r.Chance(1, 3) {
+			parent = ""
+		} else {
+			s.Ops = append(s.Ops, hx.Op{K: "group", Path: parent})
+			model[parent] = &c05Obj{Kind: "group", Attrs: attrModel{}}
+		}
+		for j := 0; j < 26; j++ {
+			name := strings.Repeat("語", r.Range(3, 12)) + fmt.Sprint(j)
+			d := c01DS{Family: "numeric", Layout: "contiguous"}
+			v := hx.GenNumeric(r, "[]i16", 2, 2)
+			d.Op = hx.Op{K: "create_ds", Path: parent + "/" + name, DT: "i16", Dims: []uint64{2}, Data: &v}
+			dd := d
+			s.Ops = append(s.Ops, d.Op)
+			model[d.Op.Path] = &c05Obj{Kind: "dataset", DS: &dd, Attrs: attrModel{}, Dims: d.Op.Dims}
+		}
+	}
 	// variable-length data (global heap collections, also larger than the default 4 KiB)
 	// followed by another object, so that a collection that claims more than it was given
 	// collides with something
